@@ -1,9 +1,11 @@
 """C03/C04: assign_attr_from_defs - what may escape while a decoded AVP list is turned into attributes.
 
-Only the exception behaviour and the frame are under contract here (a "raises-only" contract): the dict comprehension that
-indexes the class' avp_def table is abstracted by a region (an arbitrary table of rows), attribute access with computed
-names goes through an uninterpreted dynamic-attribute store, container classes are constructed through an assumed hook.
-The value round trip itself is NOT decided here (bounded stand-in, props/bounded.py)."""
+The dict comprehension that indexes the class' avp_def table is executed (every entry stems from a row stored under that
+row's own key), attribute access with computed names goes through the value-carrying open attribute store
+(heap arrays object -> name -> present / None / token), container classes are constructed through an assumed hook.
+Under contract: what escapes, the frame, and - as the step contract of the loop over the AVP list - what each AVP does to
+the attributes (decode side of the round trip).  The composition with generate_avps_from_defs and the C01 codecs into
+"encode-decode-encode = encode" is argued in DESIGN.md, not mechanised; the bounded stand-in (props/bounded.py) stays."""
 from pyvc.spec import REG as R, Raise
 from pyvc.smt import INT, BOOL, STR, app, Not
 from pyvc.values import VAny, VBool, VOpt, VRef, VNone
@@ -13,87 +15,275 @@ from . import c08  # noqa  (AvpGenDef model, getattr_dyn for messages)
 R.model("AvpGenerator", builtin=True, fields={}, dynamic={"additional_avps": "List[Avp]", "_additional_avps": "List[Avp]"},
         open_attrs=True)
 R.model("AvpGenDef", fields={"type_class": "Opt[Any:contclass]"})
-R.region("assign_attr_from_defs", "AnnAssign", 0, assigns={"needed": "Dict[str,AvpGenDef]"},
-         note="needed = {f'{a.avp_code}-{a.vendor_id}': a for a in obj.avp_def}: abstracted to an arbitrary table of rows "
-              "(which rows it holds is irrelevant for the exception behaviour)")
 
 _prev_get = R.specfns.get("getattr_dyn")
 
 
-def _dyn_has(ex, obj_t, name_t):
-    ex.decls.fun("gen_hasattr", [INT, STR], BOOL)
-    return app("gen_hasattr", BOOL, obj_t, name_t)
+def _tok_of(ex, val):
+    """(is-None flag, integer token) of a value stored into the open attribute store: object references and opaque
+    values are their own tokens; anything else (not stored by the functions under contract) is refused"""
+    from pyvc.smt import TRUE, FALSE, I
+    if val is VNone:
+        return TRUE, I(0)
+    if isinstance(val, VOpt):
+        inner = val.inner
+        if hasattr(inner, "t") and inner.t.sort == INT:
+            return val.isnone, inner.t
+        raise Unsupported(f"setattr of {val!r} into an open attribute store")
+    if hasattr(val, "t") and val.t.sort == INT:
+        return FALSE, val.t
+    raise Unsupported(f"setattr of {val!r} into an open attribute store")
 
 
 @R.specfn("hasattr_dyn")
 def _hasattr_dyn(ex, st, v, name):
     v = ex.unwrap(v)
-    return VBool(_dyn_has(ex, v.t, ex.unwrap(name).t))
+    return VBool(ex.open_read(st, v.t, ex.unwrap(name).t)[0])
 
 
 @R.specfn("getattr_dyn")
 def _getattr_dyn(ex, st, v, name, k, where):
-    """getattr(obj, <computed name>) on an attribute container: AttributeError when absent, else None or an opaque value"""
+    """getattr(obj, <computed name>) on an attribute container: AttributeError when absent, else the stored value
+    (None or a token) - a select on the open attribute store"""
     vv = ex.unwrap(v)
     if isinstance(vv, VRef) and vv.cls == "AvpGenerator":
-        has = _dyn_has(ex, vv.t, ex.unwrap(name).t)
+        has, isnone, tok = ex.open_read(st, vv.t, ex.unwrap(name).t)
         outs = ex.raise_(st.assume(Not(has)), "AttributeError", where)
         s2 = st.assume(has)
-        # reading the same attribute twice without a setattr in between gives the same value: the value is an
-        # uninterpreted function of (object, name, store version); every setattr_dyn starts a new version
-        ver = _dyn_version(ex, s2)
-        ex.decls.fun("gen_attr_none", [INT, STR, INT], BOOL)
-        ex.decls.fun("gen_attr_val", [INT, STR, INT], INT)
-        nm = ex.unwrap(name).t
-        outs += k(s2, VOpt(app("gen_attr_none", BOOL, vv.t, nm, ver), VAny(app("gen_attr_val", INT, vv.t, nm, ver))))
+        s2.pc.append(_own_list(ex, s2, vv.t, tok))
+        outs += k(s2, VOpt(isnone, VAny(tok)))
         return outs
     if _prev_get is None:
         raise Unsupported(f"getattr with a computed name at {where}")
     return _prev_get(ex, st, v, name, k, where)
 
 
-def _dyn_version(ex, st):
+def _own_list(ex, st, obj_t, tok):
+    """ownership instance (ASSUMED for the containers handed to the functions under contract, established for the
+    containers they build): a list held in an attribute of a container is an allocated object younger than the container"""
+    from pyvc.smt import Implies, And, Lt
+    ex.decls.fun("tok_isinst", [INT, INT], BOOL)
+    return Implies(app("tok_isinst", BOOL, tok, ex.class_id("list")), And(Lt(obj_t, tok), Lt(tok, st.alloc)))
+
+
+@R.specfn("own_list")
+def _own_list_spec(ex, st, obj, lst):
+    """the list `lst` (a list object) is younger than the container `obj`"""
+    from pyvc.smt import And, Lt
+    return VBool(And(Lt(ex.unwrap(obj).t, ex.unwrap(lst).t), Lt(ex.unwrap(lst).t, st.alloc)))
+
+
+@R.specfn("ref")
+def _ref(ex, st, obj):
     from pyvc.values import VInt
-    from pyvc.smt import I
-    v = st.ghost.get("$dynver")
-    return v.t if v is not None else I(0)
+    return VInt(ex.unwrap(obj).t)
+
+
+@R.specfn("tok_or0")
+def _tok_or0(ex, st, v):
+    from pyvc.values import VInt
+    from pyvc.smt import Ite, I
+    if v is VNone:
+        return VInt(I(0))
+    if isinstance(v, VOpt):
+        return VInt(Ite(v.isnone, I(0), v.inner.t))
+    return VInt(v.t)
+
+
+@R.specfn("tok_is")
+def _tok_is(ex, st, tok, lst):
+    from pyvc.smt import Eq
+    return VBool(Eq(ex.num(ex.unwrap(tok)), ex.unwrap(lst).t))
 
 
 @R.specfn("setattr_dyn")
 def _setattr_dyn(ex, st, v, name, val, k, where):
-    """setattr(obj, <computed name>, value) on an attribute container: the dynamic-attribute store is uninterpreted
-    (gen_hasattr is a fixed predicate here; later reads see a NEW store version, i.e. arbitrary values); raises nothing"""
-    from pyvc.values import VInt
-    st = st.copy()
-    st.ghost = dict(st.ghost)
-    st.ghost["$dynver"] = VInt(ex.arbitrary(INT, "dynver"))
-    return k(st, VNone)
+    """setattr(obj, <computed name>, value) on an attribute container: a store on the open attribute store (the
+    attribute exists afterwards and holds the value; every other attribute of every object is unchanged); raises
+    nothing (ASSUMED: containers define no __setattr__/__slots__ - ground rows C03.T check they are plain dataclasses)"""
+    vv = ex.unwrap(v)
+    if not (isinstance(vv, VRef) and vv.cls == "AvpGenerator"):
+        raise Unsupported(f"setattr with a computed name on {vv!r} at {where}")
+    isnone, tok = _tok_of(ex, val)
+    return k(ex.open_write(st, vv.t, ex.unwrap(name).t, isnone, tok), VNone)
 
 
 @R.specfn("call_opaque_contclass")
 def _call_contclass(ex, st, f, args, kwargs, k, where):
     """row.type_class(): a new attribute container (a dataclass whose fields all have defaults: the constructor call
-    without arguments raises nothing - ASSUMED; ground rows C03.T check that type_class is a class of the package)"""
+    without arguments raises nothing - ASSUMED; ground rows C03.T check that type_class is a class of the package).
+    Its attributes are whatever the class declares: arbitrary here."""
+    from pyvc.smt import Eq
     s2, obj = ex.alloc_obj(st, "AvpGenerator")
     obj = VRef(obj.t, "AvpGenerator")
+    from pyvc.smt import store
+    from pyvc.values import parse_kind
     for fld in ("additional_avps", "_additional_avps"):
-        s2 = ex.havoc_field(s2, obj.t, "AvpGenerator", fld)
+        # default_factory lists are built by the constructor, after the object: new (empty) lists; whether the class
+        # has the attribute at all is arbitrary
+        s2, lst = ex.new_list(s2, parse_kind("Avp"))
+        s2 = ex.write_field(s2, obj, fld, lst)
+        key = f"AvpGenerator.{fld}$has"
+        s2.heap[key] = store(ex.heap_array(s2, key, INT, BOOL), obj.t, ex.arbitrary(BOOL, "has_" + fld))
+    s2 = ex.open_havoc(s2, obj.t)
+    ex.decls.fun("made_by", [INT], INT)
+    s2.pc.append(Eq(app("made_by", INT, obj.t), ex.unwrap(f).t))
     return k(s2, obj)
 
 
+@R.specfn("made_by")
+def _made_by(ex, st, obj):
+    """the class token a container object was constructed from (ghost)"""
+    from pyvc.values import VInt
+    ex.decls.fun("made_by", [INT], INT)
+    return VInt(app("made_by", INT, ex.unwrap(obj).t))
+
+
+def _open(ix):
+    def fn(ex, st, obj, name):
+        r = ex.open_read(st, ex.unwrap(obj).t, ex.unwrap(name).t)[ix]
+        from pyvc.values import VInt
+        return VBool(r) if ix < 2 else VInt(r)
+    return fn
+
+
+R.specfn("gen_has")(_open(0))
+R.specfn("gen_none")(_open(1))
+R.specfn("gen_tok")(_open(2))
+
+
+@R.specfn("gen_is_list")
+def _gen_is_list(ex, st, obj, name):
+    ex.decls.fun("tok_isinst", [INT, INT], BOOL)
+    tok = ex.open_read(st, ex.unwrap(obj).t, ex.unwrap(name).t)[2]
+    return VBool(app("tok_isinst", BOOL, tok, ex.class_id("list")))
+
+
+@R.specfn("tok_items")
+def _tok_items(ex, st, tok):
+    """the elements of the list an attribute token denotes (a list of opaque values)"""
+    from pyvc.values import VList, VSeq, K_ANY
+    return VSeq(ex.seq_items(st, VList(ex.num(ex.unwrap(tok)), K_ANY)), K_ANY)
+
+
+@R.specfn("avp_key")
+def _avp_key(ex, st, code, vendor):
+    """the text f"{code}-{vendor}" (the same injective constructor the engine uses for the f-string in the code)"""
+    return R.specfns["fstring"](ex, st, [("expr", 0), ("lit", "-"), ("expr", 1)], [code, vendor])
+
+
+@R.specfn("none_tok")
+def _none_tok(ex, st):
+    from pyvc.values import VInt
+    return VInt(ex.decls.const("none$token", INT))
+
+
+@R.specfn("value_tok")
+def _value_tok(ex, st, a):
+    """what reading `a.value` returns in this state: an uninterpreted function of the object, its payload and its
+    decoded-member cache (every typed getter verified under C01 is a function of exactly these)"""
+    from pyvc.smt import Ite, I
+    a = ex.unwrap(a)
+    ex.decls.fun("value_tok", [INT, "(Seq Int)", BOOL, INT], INT)
+    has = ex.has_dyn(st, a, "_avps")
+    cache = ex.read_field(st, a, "_avps")
+    cache = cache.inner if isinstance(cache, VOpt) else cache
+    return VAny(app("value_tok", INT, a.t, ex.read_field(st, a, "payload").t, has, Ite(has, cache.t, I(0))))
+
+
+@R.specfn("value_ok")
+def _value_ok(ex, st, a):
+    """whether reading `a.value` succeeds in this state (same arguments as value_tok)"""
+    from pyvc.smt import Ite, I
+    a = ex.unwrap(a)
+    ex.decls.fun("value_ok", [INT, "(Seq Int)", BOOL, INT], BOOL)
+    has = ex.has_dyn(st, a, "_avps")
+    cache = ex.read_field(st, a, "_avps")
+    cache = cache.inner if isinstance(cache, VOpt) else cache
+    return VBool(app("value_ok", BOOL, a.t, ex.read_field(st, a, "payload").t, has, Ite(has, cache.t, I(0))))
+
+
 R.contract("assign_attr_from_defs#escape", params={"obj": "AvpGenerator", "avp_list": "List[Avp]"},
+           ghost={"g": "int"},
+           requires=[("the-containers-own-lists-are-younger-than-the-container",
+                      "implies(has(obj, 'additional_avps'), own_list(obj, obj.additional_avps)) and "
+                      "implies(has(obj, '_additional_avps'), own_list(obj, obj._additional_avps))")],
+           ensures=[("lists-older-than-the-container-are-untouched",
+                     "implies(0 < g and g < ref(obj), tok_items(g) == old(tok_items(g)))")],
            raises=[Raise("AvpDecodeError", "True", "may")],
-           modifies=["dyn:obj", "*list:Any", "*list:Avp", "*Avp._avps"],
+           modifies=["open:obj", "*list:Any", "*list:Avp", "*Avp._avps"],
            props=["C04", "C03"],
            note="turning ANY decoded AVP list into attributes lets only AvpDecodeError escape (from a grouped AVP whose payload "
                 "is malformed); in particular an AVP that matches no declared row of a container without additional_avps is "
-                "dropped, not an AttributeError")
-R.loop("assign_attr_from_defs", 0, invariants=[("t", "True")],
-       modifies=["dyn:obj", "*list:Any", "*list:Avp", "*Avp._avps"],
+                "dropped, not an AttributeError.  What each AVP of the list does to the attributes is the step contract of "
+                "the loop (decode side of the C03 round trip)")
+R.macro("akey", ["a"], "avp_key(a.code, a._vendor_id)")
+R.macro("arow", ["needed", "a"], "needed[avp_key(a.code, a._vendor_id)]")
+R.macro("is_list_attr", ["o", "nm"], "gen_has(o, nm) and not gen_none(o, nm) and gen_is_list(o, nm)")
+_A = "arow(needed, cur).attr_name"
+_SCALAR = f"akey(cur) in needed and is_none(arow(needed, cur).type_class) and not is_list_attr(obj, {_A})"
+_LISTV = f"akey(cur) in needed and is_none(arow(needed, cur).type_class) and is_list_attr(obj, {_A})"
+_GRPS = f"akey(cur) in needed and not is_none(arow(needed, cur).type_class) and not is_list_attr(obj, {_A})"
+_GRPL = f"akey(cur) in needed and not is_none(arow(needed, cur).type_class) and is_list_attr(obj, {_A})"
+_L = f"prev(gen_tok(obj, {_A}))"
+R.loop("assign_attr_from_defs", 0,
+       ghost={"nm": "str"},
+       invariants=[("lists-older-than-the-container-are-untouched",
+                    "implies(0 < g and g < ref(obj), tok_items(g) == old(tok_items(g)))")],
+       step=[("the-row-used-for-an-avp-declares-that-avps-code-and-vendor",
+              "implies(akey(cur) in needed, arow(needed, cur).avp_code == cur.code and arow(needed, cur).vendor_id == cur._vendor_id)"),
+             ("a-declared-scalar-avp-becomes-the-value-of-the-rows-attribute",
+              f"implies(prev({_SCALAR}), gen_has(obj, {_A}) and "
+              f"ite(prev(value_ok(cur)), not gen_none(obj, {_A}) and gen_tok(obj, {_A}) == prev(value_tok(cur)), "
+              f"gen_none(obj, {_A})))"),
+             ("a-declared-avp-of-a-list-attribute-is-appended-at-the-end-of-that-list",
+              f"implies(prev({_LISTV}), len(tok_items({_L})) == prev(len(tok_items(gen_tok(obj, {_A})))) + 1 and "
+              f"tok_items({_L})[0:len(tok_items({_L})) - 1] == prev(tok_items(gen_tok(obj, {_A}))) and "
+              f"tok_items({_L})[len(tok_items({_L})) - 1] == ite(prev(value_ok(cur)), prev(value_tok(cur)), none_tok()))"),
+             ("a-declared-grouped-avp-becomes-a-new-container-of-the-rows-class",
+              f"implies(prev({_GRPS}), gen_has(obj, {_A}) and not gen_none(obj, {_A}) and "
+              f"made_by(gen_tok(obj, {_A})) == some(arow(needed, cur).type_class))"),
+             ("a-declared-grouped-avp-of-a-list-attribute-grows-that-list-by-one",
+              f"implies(prev({_GRPL}), len(tok_items({_L})) == prev(len(tok_items(gen_tok(obj, {_A})))) + 1)"),
+             ("a-declared-grouped-avp-of-a-list-attribute-keeps-the-earlier-elements",
+              f"implies(prev({_GRPL}), tok_items({_L})[0:len(tok_items({_L})) - 1] == prev(tok_items(gen_tok(obj, {_A}))))"),
+             ("a-declared-grouped-avp-of-a-list-attribute-appends-a-new-container-of-the-rows-class",
+              f"implies(prev({_GRPL}), made_by(tok_items({_L})[len(tok_items({_L})) - 1]) == some(arow(needed, cur).type_class))"),
+             ("an-undeclared-avp-is-appended-unchanged-to-additional-avps",
+              "implies(prev(not (akey(cur) in needed) and has(obj, 'additional_avps')), "
+              "len(obj.additional_avps) == prev(len(obj.additional_avps)) + 1 and "
+              "items(obj.additional_avps)[0:len(obj.additional_avps) - 1] == prev(items(obj.additional_avps)) and "
+              "obj.additional_avps[len(obj.additional_avps) - 1] == cur)"),
+             ("a-declared-avp-leaves-additional-avps-alone",
+              f"implies(prev(akey(cur) in needed and has(obj, 'additional_avps') and "
+              f"not tok_is(gen_tok(obj, {_A}), obj.additional_avps)), "
+              "items(obj.additional_avps) == prev(items(obj.additional_avps)))"),
+             ("no-other-attribute-of-the-object-changes",
+              f"implies(not (akey(cur) in needed and nm == {_A}), gen_has(obj, nm) == prev(gen_has(obj, nm)) and "
+              "gen_none(obj, nm) == prev(gen_none(obj, nm)) and gen_tok(obj, nm) == prev(gen_tok(obj, nm)))")],
+       modifies=["open:obj", "*list:Any", "*list:Avp", "*Avp._avps"],
        local_kinds={"attr_name": "str", "has_attr": "bool", "current_value": "Opt[Any]", "attr_value": "AvpGenerator",
                     "avp_value": "Opt[Any]", "avp_key": "str"})
+for _k in ("assign_attr_from_defs#escape", "assign_attr_from_defs"):
+    R.contracts["assign_attr_from_defs#escape"].ghost_bind = dict(
+        getattr(R.contracts["assign_attr_from_defs#escape"], "ghost_bind", None) or {}, **{_k: {"g": ["g", "tok_or0(current_value)", "ref(obj.additional_avps)"]}})
+R.contract("Avp.value#tok", trusted=True, params={"self": "Avp"}, returns="Any",
+           ensures=[("a-function-of-the-object-its-payload-and-its-cache", "result == old(value_tok(self))")],
+           raises=[Raise("AvpDecodeError", "not value_ok(self)", "iff")],
+           modifies=["self._avps"],
+           note="ASSUMED behavioural contract of the polymorphic `value` getter as seen from assign_attr_from_defs: whether the "
+                "read succeeds and what it returns are functions of the object, its payload and its member cache (each typed "
+                "getter is verified under C01/C04 against a contract of exactly this shape: result == f(payload), raises iff "
+                "p(payload); the grouped getter returns its cache)")
+R.contracts["assign_attr_from_defs#escape"].call_overrides = {
+    "assign_attr_from_defs": R.contracts["assign_attr_from_defs#escape"],      # the recursion uses this contract itself
+    "Avp.value": R.contracts["Avp.value#tok"]}
+R.assume("C03: ownership - a list held in an attribute of an attribute container is younger than the container (true for "
+         "containers built by their dataclass constructor and for everything the decoder builds; a caller that stores an "
+         "older, shared list into a container is outside the contract)")
 R.assume("C03/C04: container classes (AvpGenDef.type_class) are constructed without arguments and do not raise; setattr on an "
-         "attribute container does not raise; the rows table `needed` is an arbitrary table (region)")
+         "attribute container does not raise and stores exactly the named attribute; no declared row names the attributes "
+         "additional_avps/_additional_avps (ground rows C03.T)")
 
 # ---- generate_avps_from_defs: what is emitted for each row (encode side of C03) ---------------------------------------
 from pyvc.spec import Clause  # noqa
@@ -114,25 +304,6 @@ R.contract("Avp.new", trusted=True,
 R.contract("Avp.value.fset", trusted=True, params={"self": "Avp", "new_value": "Any"},
            raises=[Raise("AvpEncodeError", "True", "may")], modifies=["self.payload", "self._avps"],
            note="behavioural contract of the polymorphic value setter: only payload/_avps change, only AvpEncodeError")
-@R.specfn("gen_has")
-def _gen_has(ex, st, obj, name):
-    return VBool(_dyn_has(ex, ex.unwrap(obj).t, ex.unwrap(name).t))
-
-
-@R.specfn("gen_none")
-def _gen_none(ex, st, obj, name):
-    ex.decls.fun("gen_attr_none", [INT, STR, INT], BOOL)
-    return VBool(app("gen_attr_none", BOOL, ex.unwrap(obj).t, ex.unwrap(name).t, _dyn_version(ex, st)))
-
-
-@R.specfn("gen_is_list")
-def _gen_is_list(ex, st, obj, name):
-    ex.decls.fun("gen_attr_val", [INT, STR, INT], INT)
-    ex.decls.fun("tok_isinst", [INT, INT], BOOL)
-    tok = app("gen_attr_val", INT, ex.unwrap(obj).t, ex.unwrap(name).t, _dyn_version(ex, st))
-    return VBool(app("tok_isinst", BOOL, tok, ex.class_id("list")))
-
-
 R.macro("attr_set", ["o", "row"], "gen_has(o, row.attr_name) and not gen_none(o, row.attr_name)")
 R.macro("row_avp", ["a", "row"],
         "a.code == row.avp_code and a._vendor_id == row.vendor_id and "
